@@ -31,6 +31,8 @@
 //!       list = no known successor is fine);
 //!   (5) nondeterministic: translating the same bytes again gives a different `{:?}` rendering of the result
 //!       (temporaries included);
+//!   (5b) policy_dependence: a block that lifts under the error policy (so it holds no unsupported instruction) renders
+//!       differently under the intrinsics policy;
 //!   (6) fallthrough_wrap: an Ok result at an address so high that `address + length` exceeds 2^64 and whose successor
 //!       list contains the WRAPPED sum (the lifter's own `address + offset` arithmetic overflowed: a panic in builds
 //!       with overflow checks - cargo test / debug - and a silent wrap in release builds such as this one). Results
@@ -389,7 +391,12 @@ struct Watch { slots: Vec<Mutex<Option<(Instant, String)>>> }
 struct Stats { calls: u64, ok: u64, err: u64, panics: u64, instrs: u64 }
 
 fn run_one(tr: &Tr, policy: bool, opts: &Options, bytes: &[u8], address: u64, seed: u64, stats: &mut Stats, check_det: bool) -> Vec<Finding> {
+    run_one_r(tr, policy, opts, bytes, address, seed, stats, check_det, &mut None)
+}
+/// `render`: in = the `{:?}` rendering of the Ok result under the OTHER (error) policy, if any; out = this call's rendering
+fn run_one_r(tr: &Tr, policy: bool, opts: &Options, bytes: &[u8], address: u64, seed: u64, stats: &mut Stats, check_det: bool, render: &mut Option<String>) -> Vec<Finding> {
     let mut out = Vec::new();
+    let other = render.take();
     stats.calls += 1;
     let r = catch_unwind(AssertUnwindSafe(|| tr.t.translate_block(bytes, address, opts)));
     match r {
@@ -403,9 +410,14 @@ fn run_one(tr: &Tr, policy: bool, opts: &Options, bytes: &[u8], address: u64, se
             stats.instrs += res.instructions().len() as u64;
             check_result(tr, bytes, address, &res, seed, &mut out);
             if check_det {
+                let mine = format!("{:?}", res);
                 let again = catch_unwind(AssertUnwindSafe(|| tr.t.translate_block(bytes, address, opts)));
-                let same = match again { Ok(Ok(r2)) => format!("{:?}", r2) == format!("{:?}", res), _ => false };
+                let same = match again { Ok(Ok(r2)) => format!("{:?}", r2) == mine, _ => false };
                 if !same { out.push(("nondeterministic", "second translation of the same bytes renders differently".to_string())); }
+                // the policy may only matter where an unsupported instruction is met: a block the error policy lifts
+                // (no unsupported instruction in it) must be lifted identically under the intrinsics policy
+                if policy { if let Some(o) = other { if o != mine { out.push(("policy_dependence", "the block lifts under the error policy, but differently under the intrinsics policy".to_string())); } } }
+                *render = Some(mine);
             }
         }
     }
@@ -515,6 +527,12 @@ fn pad(mut b: Vec<u8>, fill: u8) -> Vec<u8> { while b.len() < 16 { b.push(fill);
 
 fn families(trs: &[Tr], thorough: bool, seed: u64) -> Vec<Family> {
     let mut fs: Vec<Family> = Vec::new();
+    // development aid (not part of any tier): C05_A64_SLICE=k sweeps every A64 word whose top four bits are k
+    if let Some(k) = std::env::var("C05_A64_SLICE").ok().and_then(|s| s.parse::<u32>().ok()) {
+        let ti = trs.iter().position(|t| t.name == "aarch64").unwrap();
+        fs.push(Family { name: "a64_slice", tr: ti, len: 1 << 28, gen: Box::new(move |i| (((k & 15) << 28 | i as u32).to_le_bytes().to_vec(), 0x1000)) });
+        return fs;
+    }
     for (ti, tr) in trs.iter().enumerate() {
         let isa = tr.isa;
         let fixed = !matches!(isa, Isa::X86 | Isa::Amd64);
@@ -548,6 +566,48 @@ fn families(trs: &[Tr], thorough: bool, seed: u64) -> Vec<Family> {
                 if i % 2 == 1 { v.extend_from_slice(&c2[(k * 5 + 1) % c2.len()]); }
                 (v, 0x1000)
             }) });
+        }
+        // fixed-width ISAs: every low half under representative top halves (function / extended-opcode fields live there)
+        if fixed {
+            let tops: Vec<u16> = match isa {
+                Isa::MipsBe | Isa::MipsLe => vec![0x0000, 0x0109, 0x7109, 0x7c08, 0x0411, 0x4008, 0x03e0, 0x4600, 0x0400, 0x0510, 0x7c03, 0x4100, 0x4500, 0x0020, 0x41e0, 0x4a00, 0x7000, 0x0100],
+                Isa::Ppc => vec![0x7c63, 0x4c00, 0x7c00, 0x4e80, 0xfc20, 0x1061, 0x7fff, 0xec20, 0x4c81, 0x7c60, 0x5463, 0x7c6f, 0x4182, 0x4200, 0x4800, 0x7c08, 0x7c64, 0x4c63],
+                _ => vec![0x9ac2, 0x4e20, 0xdac0, 0xd503, 0x1e20, 0x0460, 0x2560, 0x6e20, 0x1ac2, 0x5ac0, 0x0e20, 0x2e20, 0x1e60, 0x9e20, 0xd500, 0xd518, 0xd538, 0xc85f, 0x885f, 0x38a0, 0xf8a0, 0x3820, 0xf820, 0x6540, 0xa540, 0xe540, 0x0520, 0x4420, 0x4520, 0x5e20, 0x7e20, 0x4f00, 0x0f00, 0xce00, 0x1e21, 0x9bc2, 0x9b22],
+            };
+            let ntop = if thorough { tops.len() } else { 8 };
+            fs.push(Family { name: "words_low", tr: ti, len: 65536 * ntop, gen: Box::new(move |i| {
+                let w = (tops[i / 65536] as u32) << 16 | (i % 65536) as u32;
+                (word_bytes(isa, w).to_vec(), 0x1000)
+            }) });
+        }
+        // A64 (thorough): every value of the top 22 bits with four (Rn, Rd) pairs - register numbers rarely select the
+        // decoding, except 31 (sp / zr)
+        if thorough && tr.name == "aarch64" {
+            fs.push(Family { name: "a64_fields", tr: ti, len: (1 << 22) * 4, gen: Box::new(move |i| {
+                let low = [0x001u32, 0x3ff, 0x3e0, 0x03f][i & 3];
+                let w = ((i >> 2) as u32) << 10 | low;
+                (w.to_le_bytes().to_vec(), 0x1000)
+            }) });
+        }
+        // x86: three-byte strings (opcode, modrm, sib / displacement / immediate), behind nothing, 0f, and (thorough) the
+        // mandatory prefixes; raw and zero-padded
+        if !fixed {
+            const THIRD: [u8; 11] = [0x00, 0x04, 0x05, 0x24, 0x25, 0x40, 0x64, 0x80, 0xc0, 0xe4, 0xff];
+            let heads: Vec<Vec<u8>> = if thorough { vec![vec![], vec![0x0f], vec![0x66], vec![0x66, 0x0f], vec![0xf2, 0x0f], vec![0xf3, 0x0f], vec![0x67], vec![0x0f, 0x38], vec![0x0f, 0x3a], vec![0x66, 0x0f, 0x38], vec![0x66, 0x0f, 0x3a]] } else { vec![vec![], vec![0x0f], vec![0x66, 0x0f]] };
+            let nh = heads.len();
+            let rex = isa == Isa::Amd64;
+            fs.push(Family { name: "bytes3", tr: ti, len: 65536 * 11 * nh, gen: Box::new(move |i| {
+                let (b, t, hd) = (i % 65536, (i / 65536) % 11, i / (65536 * 11));
+                let mut v = heads[hd].clone();
+                if rex && b % 3 == 1 && !v.contains(&0x0f) { v.push(0x48); }
+                v.extend_from_slice(&[(b >> 8) as u8, b as u8, THIRD[t]]);
+                ((if t % 2 == 0 { pad(v, 0) } else { v }), 0x1000)
+            }) });
+            if thorough {
+                fs.push(Family { name: "bytes3_all", tr: ti, len: 1 << 24, gen: Box::new(move |i| {
+                    (vec![(i >> 16) as u8, (i >> 8) as u8, i as u8], 0x1000)
+                }) });
+            }
         }
         // random 16-byte strings
         let nrand = if thorough { 200_000 } else { 30_000 };
@@ -659,12 +719,41 @@ fn families(trs: &[Tr], thorough: bool, seed: u64) -> Vec<Family> {
 }
 
 // ------------------------------------------------------------------------------------------------ driver
-struct Hit { job: u64, op: String, policy: bool, bytes: Vec<u8>, address: u64, kind: &'static str, detail: String, tr: usize, family: &'static str }
+/// root-cause signature of a finding: panic -> message + location, width findings -> the detail with every number and
+/// register index removed, others -> the kind
+fn signature(kind: &str, detail: &str) -> String {
+    let strip = |s: &str| -> String {
+        let mut o = String::new();
+        let mut prev_digit = false;
+        for c in s.chars() {
+            if c.is_ascii_hexdigit() && (c.is_ascii_digit() || prev_digit) { if !prev_digit { o.push('#'); } prev_digit = true; }
+            else if c == 'x' && prev_digit { }
+            else { prev_digit = false; o.push(c); }
+        }
+        o
+    };
+    match kind {
+        "panic" => detail.to_string(),
+        "assign_width" | "load_width" | "store_width" | "branch_width" | "guard_width" | "expr_width" | "intrinsic_expr" => {
+            let d = detail.rsplit(": ").next().unwrap_or(detail);
+            strip(d).chars().take(120).collect()
+        }
+        "successors_enabled" | "edges_enabled" => {
+            let d = detail.split("guards [").nth(1).unwrap_or(detail);
+            let n = d.split(" | ").count();
+            let unc = d.split(" | ").filter(|g| g.trim_end_matches(']') == "-").count();
+            format!("{} guards, {} unconditional, {}", n, unc, if detail.contains(" 0 enabled") { "none enabled" } else { "several enabled" })
+        }
+        _ => kind.to_string(),
+    }
+}
 
-fn minimise(tr: &Tr, opts: &Options, policy: bool, bytes: &[u8], address: u64, kind: &str, seed: u64) -> Vec<u8> {
+struct Hit { job: u64, sig: String, op: String, policy: bool, bytes: Vec<u8>, address: u64, kind: &'static str, detail: String, tr: usize, family: &'static str }
+
+fn minimise(tr: &Tr, opts: &Options, policy: bool, bytes: &[u8], address: u64, kind: &str, sig: &str, seed: u64) -> Vec<u8> {
     let has = |b: &[u8]| -> bool {
         let mut st = Stats::default();
-        run_one(tr, policy, opts, b, address, seed, &mut st, kind == "nondeterministic").iter().any(|f| f.0 == kind)
+        run_one(tr, policy, opts, b, address, seed, &mut st, kind == "nondeterministic").iter().any(|f| f.0 == kind && signature(f.0, &f.1) == sig)
     };
     let mut cur = bytes.to_vec();
     // shortest prefix that still shows the defect
@@ -697,7 +786,9 @@ fn main() {
     let opt_err = Options::new();
     let opt_intr = OptionsBuilder::new().unsupported_are_intrinsics(true).build();
     let opts = Arc::new([opt_err, opt_intr]);
-    let fams = Arc::new(families(&trs, thorough, seed).into_iter().filter(|f| only.as_ref().map(|o| trs[f.tr].name == o).unwrap_or(true)).collect::<Vec<_>>());
+    let only_fam: Option<Vec<String>> = std::env::var("C05_FAMILIES").ok().map(|s| s.split(',').map(|x| x.to_string()).collect()); // development aid
+    let fams = Arc::new(families(&trs, thorough, seed).into_iter().filter(|f| only.as_ref().map(|o| trs[f.tr].name == o).unwrap_or(true))
+        .filter(|f| only_fam.as_ref().map(|l| l.iter().any(|x| x == f.name)).unwrap_or(true)).collect::<Vec<_>>());
     // global job numbering: family by family
     let mut starts = Vec::new();
     let mut total = 0u64;
@@ -710,6 +801,7 @@ fn main() {
     let watch = Arc::new(Watch { slots: (0..nthreads).map(|_| Mutex::new(None)).collect() });
     let hits: Arc<Mutex<Vec<Hit>>> = Arc::new(Mutex::new(Vec::new()));
     let counts: Arc<Mutex<BTreeMap<String, u64>>> = Arc::new(Mutex::new(BTreeMap::new()));
+    let sigs: Arc<Mutex<BTreeMap<String, u64>>> = Arc::new(Mutex::new(BTreeMap::new()));
     let stats_all: Arc<Mutex<BTreeMap<String, [u64; 5]>>> = Arc::new(Mutex::new(BTreeMap::new()));
     let evals = Arc::new(AtomicU64::new(0));
     let timed_out = Arc::new(AtomicBool::new(false));
@@ -717,10 +809,11 @@ fn main() {
 
     let mut handles = Vec::new();
     for wi in 0..nthreads {
-        let (trs, opts, fams, starts, next, watch, hits, counts, stats_all, evals) = (trs.clone(), opts.clone(), fams.clone(), starts.clone(), next.clone(), watch.clone(), hits.clone(), counts.clone(), stats_all.clone(), evals.clone());
+        let (trs, opts, fams, starts, next, watch, hits, counts, sigs, stats_all, evals) = (trs.clone(), opts.clone(), fams.clone(), starts.clone(), next.clone(), watch.clone(), hits.clone(), counts.clone(), sigs.clone(), stats_all.clone(), evals.clone());
         handles.push(std::thread::spawn(move || {
             let mut local_hits: Vec<Hit> = Vec::new();
             let mut local_counts: BTreeMap<String, u64> = BTreeMap::new();
+            let mut local_sigs: BTreeMap<String, u64> = BTreeMap::new();
             let mut local_stats: BTreeMap<String, Stats> = BTreeMap::new();
             let mut kept: BTreeMap<String, usize> = BTreeMap::new();
             loop {
@@ -733,21 +826,24 @@ fn main() {
                     let f = &fams[fi];
                     let (bytes, address) = (f.gen)((job - starts[fi]) as usize);
                     let tr = &trs[f.tr];
+                    let mut render: Option<String> = None;
                     for (pi, o) in opts.iter().enumerate() {
                         let policy = pi == 1;
                         *watch.slots[wi].lock().unwrap() = Some((Instant::now(), format!("{{\"witness\":true,\"op\":\"{}.timeout\",\"policy\":\"{}\",\"bytes\":\"{}\",\"address\":\"{:#x}\",\"family\":\"{}\"}}", tr.name, if policy { "intrinsics" } else { "error" }, hex(&bytes), address, f.name)));
                         let st = local_stats.entry(format!("{}.{}", tr.name, if policy { "intrinsics" } else { "error" })).or_default();
                         // determinism: every Ok result of the small families, one in four of the large ones
                         let det = f.len < 100_000 || job % 4 == 0;
-                        let found = run_one(tr, policy, o, &bytes, address, seed ^ job, st, det);
+                        let found = run_one_r(tr, policy, o, &bytes, address, seed ^ job, st, det, &mut render);
                         *watch.slots[wi].lock().unwrap() = None;
                         for (kind, detail) in found {
                             let op = format!("{}.{}", tr.name, kind);
+                            let sig = signature(kind, &detail);
                             *local_counts.entry(op.clone()).or_default() += 1;
-                            let k = kept.entry(op.clone()).or_default();
-                            if *k < 40 {
+                            *local_sigs.entry(format!("{}: {}", op, sig)).or_default() += 1;
+                            let k = kept.entry(format!("{}: {}", op, sig)).or_default();
+                            if *k < 4 {
                                 *k += 1;
-                                local_hits.push(Hit { job, op, policy, bytes: bytes.clone(), address, kind, detail, tr: f.tr, family: f.name });
+                                local_hits.push(Hit { job, sig, op, policy, bytes: bytes.clone(), address, kind, detail, tr: f.tr, family: f.name });
                             }
                         }
                     }
@@ -757,6 +853,8 @@ fn main() {
             hits.lock().unwrap().extend(local_hits);
             let mut c = counts.lock().unwrap();
             for (k, v) in local_counts { *c.entry(k).or_default() += v; }
+            let mut g = sigs.lock().unwrap();
+            for (k, v) in local_sigs { *g.entry(k).or_default() += v; }
             let mut s = stats_all.lock().unwrap();
             for (k, v) in local_stats {
                 let e = s.entry(k).or_insert([0; 5]);
@@ -793,25 +891,33 @@ fn main() {
     // deterministic report: first three per op in job order, minimised
     let mut hits = std::mem::take(&mut *hits.lock().unwrap());
     hits.sort_by(|a, b| (a.job, a.policy, a.op.clone()).cmp(&(b.job, b.policy, b.op.clone())));
+    let diag = std::env::var("C05_DIAG").is_ok(); // development aid: one line per root-cause signature, no cap per op
     let mut printed: BTreeMap<String, usize> = BTreeMap::new();
-    for hit in &hits {
+    let mut seen_sig: BTreeSet<String> = BTreeSet::new();
+    // first the first hit of every signature, then (normal mode) the others: up to three per op
+    let mut order: Vec<&Hit> = Vec::new();
+    for hit in &hits { if seen_sig.insert(format!("{}: {}", hit.op, hit.sig)) { order.push(hit); } }
+    if !diag { for hit in &hits { if !order.iter().any(|h| std::ptr::eq(*h, hit)) { order.push(hit); } } }
+    for hit in order {
         let p = printed.entry(hit.op.clone()).or_default();
-        if *p >= 3 { continue; }
+        if *p >= 3 && !diag { continue; }
         *p += 1;
         let tr = &trs[hit.tr];
         let o = &opts[hit.policy as usize];
-        let min = if hit.kind == "timeout" { hit.bytes.clone() } else { minimise(tr, o, hit.policy, &hit.bytes, hit.address, hit.kind, seed ^ hit.job) };
+        let min = if hit.kind == "timeout" { hit.bytes.clone() } else { minimise(tr, o, hit.policy, &hit.bytes, hit.address, hit.kind, &hit.sig, seed ^ hit.job) };
         // detail of the minimised input
         let mut st = Stats::default();
-        let d2 = run_one(tr, hit.policy, o, &min, hit.address, seed ^ hit.job, &mut st, hit.kind == "nondeterministic").into_iter().find(|f| f.0 == hit.kind).map(|f| f.1).unwrap_or_else(|| hit.detail.clone());
+        let d2 = run_one(tr, hit.policy, o, &min, hit.address, seed ^ hit.job, &mut st, hit.kind == "nondeterministic").into_iter().find(|f| f.0 == hit.kind && signature(f.0, &f.1) == hit.sig).map(|f| f.1).unwrap_or_else(|| hit.detail.clone());
         println!("{{\"witness\":true,\"op\":{},\"policy\":\"{}\",\"bytes\":\"{}\",\"address\":\"{:#x}\",\"found_in\":\"{}\",\"family\":\"{}\",\"detail\":{}}}",
             jstr(&hit.op), if hit.policy { "intrinsics" } else { "error" }, hex(&min), hit.address, hex(&hit.bytes), hit.family, jstr(&d2.chars().take(700).collect::<String>()));
     }
     let counts = counts.lock().unwrap();
     let disagreements: u64 = counts.values().sum();
     let po = counts.iter().map(|(k, v)| format!("{}:{}", jstr(k), v)).collect::<Vec<_>>().join(",");
+    let sg = sigs.lock().unwrap();
+    let psg = sg.iter().map(|(k, v)| format!("{}:{}", jstr(k), v)).collect::<Vec<_>>().join(",");
     let st = stats_all.lock().unwrap();
     let ps = st.iter().map(|(k, v)| format!("{}:{{\"calls\":{},\"ok\":{},\"err\":{},\"panics\":{},\"instruction_graphs\":{}}}", jstr(k), v[0], v[1], v[2], v[3], v[4])).collect::<Vec<_>>().join(",");
-    println!("{{\"summary\":true,\"evaluations\":{},\"disagreements\":{},\"per_op\":{{{}}},\"per_translator\":{{{}}},\"tier\":\"{}\",\"seed\":{},\"threads\":{},\"seconds\":{:.1}}}",
-        evals.load(Ordering::Relaxed), disagreements, po, ps, if thorough { "thorough" } else { "quick" }, seed, nthreads, t0.elapsed().as_secs_f64());
+    println!("{{\"summary\":true,\"evaluations\":{},\"disagreements\":{},\"per_op\":{{{}}},\"per_signature\":{{{}}},\"per_translator\":{{{}}},\"tier\":\"{}\",\"seed\":{},\"threads\":{},\"seconds\":{:.1}}}",
+        evals.load(Ordering::Relaxed), disagreements, po, psg, ps, if thorough { "thorough" } else { "quick" }, seed, nthreads, t0.elapsed().as_secs_f64());
 }
